@@ -19,41 +19,182 @@ from harness import gen, trees, pipeline, mapcheck
 NEAR_FLAT = 1.0e5 * 2.0 ** -24
 
 
-def build_reference(ctx, rng, d):
+STYLES = ['padded', 'cl-unpadded', 'bare-unpadded', 'case', 'spaces']
+
+
+def _numbers(rng, n):
+    """n distinct unpadded positive numbers; for n >= 2 one of them is a single digit >= 2 and one has two digits, so
+    that the string order of the names ('cl10' < 'cl2') differs from their numeric order."""
+    if n < 2:
+        return [rng.randrange(1, 13)]
+    hi, lo = rng.randrange(10, 13), rng.randrange(2, 10)
+    rest = [x for x in range(1, max(15, n + 3)) if x not in (hi, lo)]
+    out = [hi, lo] + rng.sample(rest, n - 2)
+    rng.shuffle(out)
+    return out
+
+
+def name_table(rng, gt, style):
+    """The names under which the nodes of the generated tree are written: {(level index, node int): name} and the
+    level names.  trees.GenTree knows only the zero-padded 'nNNN' names; every other style is a consistent renaming,
+    and the check compares assignments BY NAME through this table."""
+    L = len(gt.levels)
+    nm = {}
+    if style == 'padded':
+        lv = list(gt.levels)
+    elif style == 'spaces':
+        lv = [f'tax level {i}' for i in range(L)]
+    elif style == 'case':
+        lv = ['Class', 'class', 'CLASS', 'cLass'][:L]
+    else:
+        lv = [['class', 'subclass', 'supertype', 'cluster'][4 - L + i] for i in range(L)]
+    one_prefix = rng.random() < 0.5
+    word = rng.choice(['pvalb', 'astro', 'micro'])
+    for li, level in enumerate(gt.model):
+        ids = [x for x, _ in level]
+        n = len(ids)
+        if style == 'padded':
+            names = [gt.name(x) for x in ids]
+        elif style == 'cl-unpadded':
+            pre = 'cl' if one_prefix else ['cl', 'sub', 'st', 'grp'][(L - 1 - li) % 4]
+            names = [f'{pre}{m}' for m in _numbers(rng, n)]
+        elif style == 'bare-unpadded':
+            names = [f'{m}' for m in _numbers(rng, n)]
+        elif style == 'case':
+            w = word if one_prefix else rng.choice(['pvalb', 'astro', 'micro'])
+            names = [''.join(c.upper() if (bits >> j) & 1 else c for j, c in enumerate(w))
+                     for bits in rng.sample(range(2 ** len(w)), n)]
+        else:
+            stems = ['L2 3 IT', 'Sst Chodl', 'Astro  TE', 'my cluster', 'a b']
+            names = [f'{rng.choice(stems)} {m}' for m in _numbers(rng, n)]
+        assert len(set(names)) == n
+        for x, name in zip(ids, names):
+            nm[(li, x)] = name
+    return nm, lv
+
+
+def leaves_below(gt, li, node):
+    cur = [node]
+    for lj in range(li, len(gt.levels) - 1):
+        kids = dict((x, c) for x, c in gt.model[lj])
+        cur = [c for x in cur for c in kids[x]]
+    return cur
+
+
+def branches(gt):
+    """the internal nodes (level index, node) below which all leaves can be emptied while two leaves keep their cells"""
+    return [(li, x) for li in range(len(gt.levels) - 1) for x, _ in gt.model[li]
+            if gt.n_leaves() - len(leaves_below(gt, li, x)) >= 2]
+
+
+def build_reference(ctx, rng, d, k, info):
     """Generated separable reference -> statistics -> reference markers -> query markers,
-    all through the pipeline's own stage functions."""
-    from cell_type_mapper.diff_exp.precompute_from_anndata import precompute_summary_stats_from_h5ad
+    all through the pipeline's own stage functions.  `info` receives the description of the case as it is built, so
+    that a stage failure can be reported with its input."""
+    from cell_type_mapper.diff_exp.precompute_from_anndata import (
+        precompute_summary_stats_from_h5ad, precompute_summary_stats_from_h5ad_list_and_tree)
     from cell_type_mapper.diff_exp.markers import find_markers_for_all_taxonomy_pairs
     from cell_type_mapper.type_assignment.marker_cache_v2 import create_marker_gene_lookup_from_ref_list
     from cell_type_mapper.taxonomy.taxonomy_tree import TaxonomyTree
-    gt = trees.random_tree(rng, max_levels=rng.choice([1, 2, 3, 4]), max_leaves=6, p_single=0.25)
+    big = rng.random() < 0.15
+    gt = trees.random_tree(rng, max_levels=rng.choice([1, 2, 3, 4]), max_leaves=11 if big else 6, p_single=0.25)
+    mode = ['none', 'leaf', 'any'][k % 3]
+    if mode == 'any':
+        mode = rng.choice(['none', 'leaf', 'branch', 'branch'])
+    for _ in range(8):
+        # a case that is to have an empty leaf needs three leaves (two keep their cells), an empty branch a node whose
+        # removal leaves two
+        if mode == 'none' or (mode == 'leaf' and gt.n_leaves() >= 3) or (mode == 'branch' and branches(gt)):
+            break
+        gt = trees.random_tree(rng, max_levels=rng.choice([2, 3, 4]), max_leaves=8, p_single=0.25)
+    info['n_leaves'] = gt.n_leaves()
+    style = STYLES[k % len(STYLES)]
+    nm, lv = name_table(rng, gt, style)
+    inv = {(li, name): x for (li, x), name in nm.items()}
     leaves = [n for n, _ in gt.model[-1]]
+    L = len(gt.levels)
+    # leaves (or a whole branch) without any cell in the reference; at least two leaves keep their cells (with a single
+    # non-empty leaf there is nothing to separate: no marker exists anywhere and mapping refuses the lookup)
+    empty = []
+    if mode == 'branch':
+        cand = branches(gt)
+        if cand:
+            empty = leaves_below(gt, *rng.choice(cand))
+        else:
+            mode = 'leaf'
+    if mode == 'leaf' and len(leaves) >= 3:
+        empty = rng.sample(leaves, min(len(leaves) - 2, rng.choice([1, 1, 2])))
+    if not empty:
+        mode = 'none'
+    entry = rng.choice(['tree-rows', 'tree-names']) if empty else rng.choice(['columns', 'columns', 'columns', 'tree-rows', 'tree-names'])
+    # how a leaf comes to be empty: no cell listed; cells listed that are not in the file; cells of the file that the
+    # cell_set restriction of the statistics stage leaves out
+    how = {lf: (rng.choice(['no-cells', 'absent-cells', 'cell-set']) if entry == 'tree-names' else 'no-cells') for lf in empty}
+    info.update({'names': style, 'levels': lv, 'empty_mode': mode, 'entry': entry,
+                 'empty_leaves': {nm[(L - 1, lf)]: how[lf] for lf in empty}})
     ng = rng.randrange(16, 30)
     prof = {lf: [rng.choice([0, 0, 0, 20, 50, 200]) for _ in range(ng)] for lf in leaves}
-    rows, labels = [], []
-    L = len(gt.levels)
+    rows, labels, owner, used = [], [], [], []
     for lf in leaves:
+        if lf in how and how[lf] != 'cell-set':
+            continue
         for _ in range(rng.randrange(4, 8)):
             rows.append([max(0, p + rng.randrange(-2, 3)) if p > 0 else rng.choice([0, 0, 0, 1]) for p in prof[lf]])
             lab = [None] * L
-            lab[L - 1] = gt.name(lf)
+            lab[L - 1] = nm[(L - 1, lf)]
             cur = lf
             for li in range(L - 1, 0, -1):
                 cur = mapcheck.parent_of(gt.model, li, cur)
-                lab[li - 1] = gt.name(cur)
+                lab[li - 1] = nm[(li - 1, cur)]
             labels.append(lab)
+            owner.append(lf)
+            used.append(lf not in how)
+    if entry != 'columns':
+        for _ in range(rng.choice([0, 0, 1, 3])):      # cells of the file that belong to no cluster of the taxonomy
+            rows.append([rng.choice([0, 0, 5, 90]) for _ in range(ng)])
+            labels.append(None)
+            owner.append(None)
+            used.append(False)
     order = list(range(len(rows)))
     rng.shuffle(order)
     M = np.array([rows[i] for i in order], dtype=np.float32)
-    obs = {gt.levels[i]: [labels[j][i] for j in order] for i in range(L)}
+    owner = [owner[i] for i in order]
+    used = [used[i] for i in order]
+    cells = [f'r{i}' for i in range(len(rows))]
+    obs = {lv[i]: [labels[j][i] for j in order] for i in range(L)} if entry == 'columns' else None
     genes = [pipeline.gname(g) for g in range(ng)]
-    gen.write_h5ad(d / 'ref.h5ad', M, [f'r{i}' for i in range(len(rows))], genes,
-                   encoding=rng.choice(['csr', 'csc', 'dense']), obs_cols=obs)
+    gen.write_h5ad(d / 'ref.h5ad', M, cells, genes, encoding=rng.choice(['csr', 'csc', 'dense']), obs_cols=obs)
+    # the taxonomy under its written names
+    data = {'hierarchy': list(lv)}
+    for li in range(L):
+        this = {}
+        for key, val in gt.data[gt.levels[li]].items():
+            x = trees.GenTree.num(key)
+            if li < L - 1:
+                this[nm[(li, x)]] = [nm[(li + 1, trees.GenTree.num(c))] for c in val]
+            elif entry == 'tree-rows':
+                this[nm[(li, x)]] = [i for i, o in enumerate(owner) if o == x]
+            elif how.get(x) == 'absent-cells':
+                this[nm[(li, x)]] = [f'absent{x}_{j}' for j in range(rng.randrange(1, 4))]
+            else:
+                this[nm[(li, x)]] = [cells[i] for i, o in enumerate(owner) if o == x]
+        data[lv[li]] = this
+    info['tree'] = data
+    cell_set = None
+    if any(h == 'cell-set' for h in how.values()):
+        cell_set = set(c for c, u in zip(cells, used) if u) | {'r_not_in_any_file'}
     buf = io.StringIO()
     with contextlib.redirect_stdout(buf), contextlib.redirect_stderr(buf):
-        precompute_summary_stats_from_h5ad(d / 'ref.h5ad', gt.levels, None, d / 'stats.h5',
-                                           rows_at_a_time=rng.randrange(3, 12), normalization='raw',
-                                           tmp_dir=str(d), n_processors=rng.randrange(1, 4))
+        info['stage'] = 'statistics'
+        kw = dict(rows_at_a_time=rng.randrange(3, 12), normalization='raw', tmp_dir=str(d), n_processors=rng.randrange(1, 4))
+        if entry == 'columns':
+            precompute_summary_stats_from_h5ad(d / 'ref.h5ad', list(lv), None, d / 'stats.h5', **kw)
+        elif entry == 'tree-rows':
+            precompute_summary_stats_from_h5ad(d / 'ref.h5ad', None, TaxonomyTree(data=data), d / 'stats.h5', **kw)
+        else:
+            precompute_summary_stats_from_h5ad_list_and_tree([d / 'ref.h5ad'], TaxonomyTree(data=data), d / 'stats.h5',
+                                                             cell_set=cell_set, **kw)
+        info['stage'] = 'reference markers'
         tree = TaxonomyTree.from_precomputed_stats(d / 'stats.h5')
         find_markers_for_all_taxonomy_pairs(d / 'stats.h5', tree, d / 'refm.h5', n_processors=rng.randrange(1, 4),
                                             tmp_dir=str(d), max_gb=1)
@@ -62,45 +203,69 @@ def build_reference(ctx, rng, d):
             f.create_dataset('metadata', data=json.dumps({'precomputed_path': str(d / 'stats.h5')}).encode('utf-8'))
         qgenes = list(genes)
         rng.shuffle(qgenes)
+        info['stage'] = 'query markers'
         lookup = create_marker_gene_lookup_from_ref_list([str(d / 'refm.h5')], qgenes, n_per_utility=rng.randrange(2, 6),
                                                          n_per_utility_override=None, n_processors=rng.randrange(1, 4),
                                                          behemoth_cutoff=rng.choice([0, 1000]), tmp_dir=str(d))
     lookup = {k: v for k, v in lookup.items() if k not in ('metadata', 'log')}
     with open(d / 'markers.json', 'w') as f:
         json.dump(lookup, f)
-    # the TRUE centroids, computed here directly from the reference cells (not read back from the
-    # statistics file, which is one of the products under test)
+    # the TRUE centroids of the non-empty leaves, computed here directly from the reference cells (not read back from
+    # the statistics file, which is one of the products under test); an empty leaf has no centroid
     tot = M.astype(np.float64).sum(axis=1, keepdims=True)
     logcpm = np.log2(1.0 + M.astype(np.float64) * 1.0e6 / np.where(tot > 0, tot, 1.0))
-    leaf_of = obs[gt.levels[-1]]
-    truth = {}
+    truth, ncell = {}, {}
     for lf in leaves:
-        sel = [i for i, x in enumerate(leaf_of) if x == gt.name(lf)]
-        truth[gt.name(lf)] = logcpm[sel].mean(axis=0)
-    return gt, genes, qgenes, lookup, truth
+        sel = [i for i, o in enumerate(owner) if o == lf and used[i]]
+        ncell[nm[(L - 1, lf)]] = len(sel)
+        if sel:
+            truth[nm[(L - 1, lf)]] = logcpm[sel].mean(axis=0)
+    return gt, nm, lv, inv, genes, qgenes, lookup, truth, ncell
 
 
 def run(ctx):
     rng = ctx.rng
     ctx.rule = ('the four real stages chained on generated separable references (statistics from raw counts, reference '
-                'markers, query marker selection, mapping); the query holds, per leaf, the mean log2(CPM+1) profile read '
-                'from the statistics file, written in shuffled gene order and declared log2CPM; factors {0.25,0.5,0.9,1}; '
-                'the proviso of the property is evaluated from the recorded subsets; non-trivial = a centroid cell at a node '
+                'markers, query marker selection, mapping); the query holds, per NON-empty leaf, the mean log2(CPM+1) profile '
+                'computed from the reference cells, written in shuffled gene order and declared log2CPM; factors '
+                '{0.25,0.5,0.9,1}; node / level names in five styles (zero-padded, unpadded numbered with a two-digit number '
+                '"cl2"/"cl10", bare numbers "2"/"10", names differing only in case, names with spaces), assignments compared BY '
+                'NAME through the name table; taxonomies with leaves or a whole branch without any cell in the reference (no '
+                'cell listed / listed cells absent from the file / cells left out by cell_set), given to the statistics stage '
+                'through its TaxonomyTree entry points (row indices or cell names) besides the obs-column entry point; the '
+                'proviso of the property is evaluated from the recorded subsets; non-trivial = a centroid cell at a node '
                 'with >= 2 children')
     ctx.assumptions += ['the reference-marker file gets the metadata dataset {precomputed_path} that cli/reference_markers.py '
                         'writes (the argschema CLI itself cannot be constructed in this environment)',
                         'separable clusters: a generated reference for which the marker stages find no gene at all for a node '
                         'with >= 2 children is outside the quantifier; mapping must then refuse the lookup with "has no valid '
-                        'markers" (validate_marker_lookup) - counted in the distribution, not compared',
+                        'markers" (validate_marker_lookup; "no valid marker genes could be found at any level" when the whole table '
+                        'is empty) - counted in the distribution, not compared',
                         'a drawn subset on which the centroid values lie within 1e5 * 2^-24 (relative) of each other is a '
                         'near-tie: the single-precision rounding of the stored centroid then moves the correlation with the '
-                        'own centroid by more than the 1e-9 tested; counted and skipped (the exactly flat subset is finding F6)']
-    n = ctx.n(8, 120)
-    for k in range(n):
+                        'own centroid by more than the 1e-9 tested; counted and skipped (the exactly flat subset is finding F6)',
+                        'an empty leaf (no cell in the reference) has no centroid: the statement is evaluated for the centroids of '
+                        'the non-empty leaves, which must be recovered with the empty leaves present in the taxonomy (an empty '
+                        'leaf has the all-zero profile, flat on every subset, so it never falls under "perfectly correlated"); '
+                        'every taxonomy keeps at least two non-empty leaves (with one, no marker exists anywhere)',
+                        'node names do not contain "/" (the marker table addresses parents as "level/node")']
+    n = ctx.n(15, 120)
+    slot = 0
+    # name style, empty-leaf mode and factor rotate with `slot`; a taxonomy with fewer than two leaves (finding F12:
+    # the marker stage raises) is generated and run as before but does not use up a slot
+    for k in range(2 * n):
+        if slot >= n:
+            break
         d = ctx.scratch / f's{k}'
         d.mkdir()
+        info = {}
+        this_slot = slot
         try:
-            gt, genes, qgenes, lookup, truth = build_reference(ctx, rng, d)
+            try:
+                gt, nm, lv, inv, genes, qgenes, lookup, truth, ncell = build_reference(ctx, rng, d, this_slot, info)
+            finally:
+                if info.get('n_leaves', 2) >= 2:
+                    slot += 1
         except Exception as e:
             ctx.count(('c18', k, 'stage-failure'), nontrivial=False)
             import traceback
@@ -113,15 +278,31 @@ def run(ctx):
                 # regression of the REPAIRED finding F17 (kind "fixed": suppresses nothing): a reference without any
                 # up- (or down-) regulated marker must give a marker file with an empty direction
                 cls = 'F17-no-marker-in-one-direction-raises'
-            ctx.violation(f'a stage rejected the output of the previous stage: {type(e).__name__}: {e}',
-                          {'class': cls, 'error': f'{type(e).__name__}: {e}', 'traceback': tb[-1500:]})
+            ctx.dist('names', info.get('names'))
+            ctx.violation(f'stage "{info.get("stage")}" rejected its input / the output of the previous stage: '
+                          f'{type(e).__name__}: {" ".join(str(e).split())}'[:600],
+                          dict(info, **{'class': cls, 'error': f'{type(e).__name__}: {e}', 'traceback': tb[-1500:]}))
             shutil.rmtree(d, ignore_errors=True)
             continue
+        ctx.dist('names', info['names'])
+        ctx.dist('empty', 'none' if not info['empty_leaves'] else
+                 f"{info['empty_mode']}: " + ','.join(sorted(set(info['empty_leaves'].values()))))
+        ctx.dist('statistics entry point', info['entry'])
         with h5py.File(d / 'stats.h5', 'r') as f:
             rowof = json.loads(f['cluster_to_row'][()].decode())
             cols = json.loads(f['col_names'][()].decode())
-            means = f['sum'][()] / np.maximum(1, f['n_cells'][()])[:, None]
-        leaves = [gt.name(n) for n, _ in gt.model[-1]]
+            stored_n = f['n_cells'][()]
+            means = f['sum'][()] / np.maximum(1, stored_n)[:, None]
+        L = len(gt.levels)
+        all_leaves = [nm[(L - 1, n)] for n, _ in gt.model[-1]]
+        # the statement concerns the centroids of the NON-empty leaves (an empty leaf has no centroid)
+        leaves = [lf for lf in all_leaves if lf in truth]
+        # every leaf of the taxonomy has its row, by name, with the number of its cells (0 for an empty leaf)
+        bad_n = {lf: (int(stored_n[rowof[lf]]) if lf in rowof else None, ncell[lf]) for lf in all_leaves
+                 if lf not in rowof or int(stored_n[rowof[lf]]) != ncell[lf]}
+        if bad_n or sorted(rowof) != sorted(all_leaves):
+            ctx.violation(f'the statistics file does not hold the cell counts of the leaves by name: (stored, true) = {bad_n}, '
+                          f'rows {sorted(rowof)}', dict(info, **{'class': 'c18-stored-centroid-wrong', 'n_cells': bad_n}))
         pos = [cols.index(g) for g in qgenes]
         gpos = [genes.index(g) for g in qgenes]
         Q = np.array([truth[lf][gpos] for lf in leaves])
@@ -130,26 +311,31 @@ def run(ctx):
         worst = max(float(np.max(np.abs(means[rowof[lf]][pos] - truth[lf][gpos]))) for lf in leaves)
         if worst > 1e-4:      # the reference is float32: the stored means carry single-precision rounding (~1e-6)
             ctx.violation(f'the statistics file does not hold the cluster centroids: max |stored mean - true mean| = {worst}',
-                          {'class': 'c18-stored-centroid-wrong', 'tree': gt.data, 'max_abs_difference': worst,
-                           'leaves': leaves})
+                          dict(info, **{'class': 'c18-stored-centroid-wrong', 'max_abs_difference': worst,
+                                        'leaves': leaves}))
         cell_ids = [f'centroid_{lf}' for lf in leaves]
         gen.write_h5ad(d / 'query.h5ad', Q, cell_ids, qgenes, encoding=rng.choice(['dense', 'csr']))
-        factor = [1.0, 0.5, 0.9, 0.25][k % 4]          # every factor in every tier
+        factor = [1.0, 0.5, 0.9, 0.25][this_slot % 4]          # every factor in every tier
         rng.random()
         cfg = pipeline.config_for(d, d / 'query.h5ad', d / 'stats.h5', d / 'markers.json',
                                   bootstrap_factor=factor, bootstrap_iteration=rng.choice([3, 10]),
                                   rng_seed=rng.randrange(10 ** 6), n_processors=rng.randrange(1, 4),
                                   chunk_size=rng.randrange(1, 6), n_runners_up=2, min_markers=rng.choice([1, 3]))
         res = pipeline.run_mapping(cfg, trace_dir=d / 'trace')
-        desc = {'kind': 'centroid-run', 'tree': gt.data, 'lookup': lookup, 'factor': factor,
-                'config': {kk: cfg['type_assignment'][kk] for kk in cfg['type_assignment']}}
-        if not res['ok'] and 'has no valid markers' in str(res['error']):
+        desc = dict(info, **{'kind': 'centroid-run', 'lookup': lookup, 'factor': factor,
+                             'config': {kk: cfg['type_assignment'][kk] for kk in cfg['type_assignment']}})
+        if not res['ok'] and ('has no valid markers' in str(res['error']) or
+                              ('no valid marker genes could be found at any level' in str(res['error'])
+                               and not any(lookup.values()))):
             # not separable: the marker stages found NO gene for a node that has a choice (e.g. two clusters whose
             # differing genes all fail the criteria), and mapping refuses such a lookup by design
-            # (validate_marker_lookup).  Outside the quantifier ("separable clusters"); counted, not compared.
+            # (validate_marker_lookup; when the marker table is empty altogether - the root has a single child and no
+            # node below it got a gene - create_marker_cache_from_specified_markers refuses it first with "no valid
+            # marker genes could be found at any level").  Outside the quantifier ("separable clusters"); counted, not
+            # compared.
             choice = ['None' if len(gt.model[0]) >= 2 else None]
             for li in range(len(gt.levels) - 1):
-                choice += [f'{gt.levels[li]}/{gt.name(n)}' for n, ch in gt.model[li] if len(ch) >= 2]
+                choice += [f'{lv[li]}/{nm[(li, n)]}' for n, ch in gt.model[li] if len(ch) >= 2]
             if any(c is not None and not lookup.get(c) for c in choice):
                 ctx.count(('c18', k, 'not-separable'), nontrivial=False)
                 ctx.dist('reference', 'not-separable (no marker at a node with a choice): mapping refuses, skipped')
@@ -167,8 +353,8 @@ def run(ctx):
         chunk_of, nodes_ev, subs_ev = {}, {}, {}
         for ev in trace:
             if ev['ev'] == 'chunk':
-                for nm in ev['names']:
-                    chunk_of[nm] = tuple(ev['chunk'])
+                for cname in ev['names']:
+                    chunk_of[cname] = tuple(ev['chunk'])
             else:
                 key = (tuple(ev['chunk']), None if ev.get('parent') is None else tuple(ev['parent']))
                 (nodes_ev if ev['ev'] == 'node' else subs_ev)[key] = ev
@@ -177,15 +363,15 @@ def run(ctx):
         for lf, cid in zip(leaves, cell_ids):
             r = by[cid]
             # expected path
-            path = [trees.GenTree.num(lf)]
+            path = [inv[(L - 1, lf)]]
             for li in range(len(gt.levels) - 1, 0, -1):
                 path.insert(0, mapcheck.parent_of(gt.model, li, path[0]))
             parent = None
-            for li, lv in enumerate(gt.levels):
+            for li, lvn in enumerate(lv):
                 kids = [x for x, _ in gt.model[0]] if parent is None else dict((x, c) for x, c in gt.model[li - 1])[parent[1]]
-                a = r[lv]
+                a = r[lvn]
                 if len(kids) >= 2:
-                    key = (chunk_of[cid], None if parent is None else (gt.levels[parent[0]], gt.name(parent[1])))
+                    key = (chunk_of[cid], None if parent is None else (lv[parent[0]], nm[parent]))
                     nev, sev = nodes_ev[key], subs_ev[key]
                     gcols = [qpos[g] for g in nev['genes']]
                     qv = Q[cell_ids.index(cid)][gcols]
@@ -209,31 +395,31 @@ def run(ctx):
                             c = np.corrcoef(qs, rs)[0, 1]
                             if c > 1 - 1e-9:
                                 proviso = False
-                    ctx.count(('c18', k, cid, lv), nontrivial=True)
+                    ctx.count(('c18', k, cid, lvn), nontrivial=True)
                     ctx.dist('factor', factor)
                     ctx.dist('proviso', 'near-flat-subset (skipped)' if near_flat and not flat else
                              ('holds' if proviso and not flat else ('flat-subset' if flat else 'other-leaf-perfect')))
                     if near_flat and not flat:
                         pass                    # near-tie: counted in the distribution above, not compared
                     elif proviso:
-                        ok = (trees.GenTree.num(a['assignment']) == path[li] and abs(a['bootstrapping_probability'] - 1) < 1e-12
+                        ok = (inv.get((li, a['assignment'])) == path[li] and abs(a['bootstrapping_probability'] - 1) < 1e-12
                               and abs(a['avg_correlation'] - 1) < 1e-9)
                         if not ok:
                             ctx.disagreements_checked += 1
                             dd = dict(desc)
-                            dd.update({'cell': cid, 'level': lv, 'record': a, 'subsets': sev['subsets'], 'genes': nev['genes'],
+                            dd.update({'cell': cid, 'level': lvn, 'record': a, 'subsets': sev['subsets'], 'genes': nev['genes'],
                                        'centroid_on_genes': qv.tolist()})
                             dd['class'] = 'F6-centroid-flat-on-a-drawn-subset' if flat else 'c18-centroid-not-recovered'
-                            ctx.violation(f'centroid {cid} level {lv}: got {a["assignment"]} p={a["bootstrapping_probability"]} '
-                                          f'corr={a["avg_correlation"]}, expected {gt.name(path[li])} with p=1, corr=1', dd)
+                            ctx.violation(f'centroid {cid} level {lvn}: got {a["assignment"]!r} p={a["bootstrapping_probability"]} '
+                                          f'corr={a["avg_correlation"]}, expected {nm[(li, path[li])]!r} with p=1, corr=1', dd)
                         else:
                             ctx.traces_validated += 1
                 # follow the EXPECTED path only while the implementation agrees
-                if trees.GenTree.num(a['assignment']) != path[li]:
+                if inv.get((li, a['assignment'])) != path[li]:
                     break
                 parent = (li, path[li])
         if k < 2:
-            ctx.sample({'tree': gt.data, 'n_genes': len(genes), 'lookup': lookup, 'factor': factor})
+            ctx.sample(dict(info, n_genes=len(genes), lookup=lookup, factor=factor))
         shutil.rmtree(d, ignore_errors=True)
 
 
